@@ -270,7 +270,10 @@ def r_select_workers(ctx):
             ctx.violation("R-PB-TABLE", where, f"kind={kind}: count over all selection flags",
                           f"expected {show(want)[:240]}, built {show(got)[:240] if got else None}", location)
         rs = [ev for ev in run.events_of("raise") if "nb_workers_to_select" in show(And(*ev.guards))]
-        if rs and norm(rs[0].guards[-1]) == norm(gt(S("self.nb_workers_to_select"), ("call", "len", (S("self.list_of_workers"),), ()))):
+        from sa.decide import canon_atom, atom_key
+        want_g = canon_atom(gt(S("self.nb_workers_to_select"), ("call", "len", (S("self.list_of_workers"),), ())))
+        got_g = canon_atom(rs[0].guards[-1]) if rs else None
+        if rs and got_g is not None and atom_key(got_g) == atom_key(want_g):
             ctx.ok("R-RAISE-SELECT", f"{where} kind={kind}: more workers requested than listed is rejected")
         else:
             ctx.violation("R-RAISE-SELECT", where, "nb_workers_to_select > len(list_of_workers) rejected",
@@ -394,8 +397,9 @@ def r_work_amount(ctx):
         ok_loop = len(loops) == 1 and loops[0][3] == norm(Tk[3])
         body = bodies[0]
         # python-level guards allowed: work_amount > 0 and "the task has resources"
-        allowed = {norm(gt(A(t, "work_amount"), K(0)))}
-        extra = [x for x in guards if x not in allowed and "_required_resources" not in show(x)]
+        from sa.decide import canon
+        allowed = {repr(canon(gt(A(t, "work_amount"), K(0))))}
+        extra = [x for x in guards if repr(canon(x)) not in allowed and "_required_resources" not in show(x)]
         # optional tasks: under the scheduled guard
         opt = A(t, "optional")
         want_opt = Implies(A(t, "_scheduled"), rel)
